@@ -385,7 +385,7 @@ func (g *gen) outLeaf(base string) Val {
 		case 1:
 			return Val{K: "nilptr"}
 		case 2:
-			return Val{K: "other", S: g.pick([]string{"map", "struct", "chan", "nint8", "nint16", "nint32", "nint64", "nint", "nuint8", "nfloat64", "nfloat32", "nstring", "nbool"})}
+			return Val{K: "other", S: g.pick([]string{"map", "struct", "chan"})}
 		case 3:
 			return Val{K: "bool", B: true}
 		case 4:
